@@ -56,7 +56,7 @@ THEOREMS = ["Cppcheck.C26." + t for t in (
     "toXML_roundtrip_partial", "toXML_wf_partial", "rawOK_ignores_messages", "toXML_wf_counterexample", "toXML_roundtrip_counterexample",
     "rng_els", "rng_error_names", "rng_loc_names", "rng_sev", "toXML_conforms_rng_partial",
     "sarif_results_tree", "sarif_rules_tree", "sarif_drops_unlocated", "sarif_string_roundtrip", "json_serialize_roundtrip", "sarif_document",
-    "sarif_level_spec", "xml_report_partial",
+    "sarif_level_spec", "xml_report_partial", "code_field", "loc_code_field", "toString_code_independent_of_display_path",
     "render_eq_spec_partial", "render_injection_counterexample", "render_hang_counterexample",
     "each_once", "stdLogger_all_partial", "xml_dedup_by_text_counterexample")]
 
@@ -208,6 +208,17 @@ def extract_tostring_variant():
     if body == plain[:1] + ["if (pos2 == std::string::npos)", "break;"] + plain[1:]:
         return True
     raise Unrecognised("toString: {inconclusive: loop body %r" % body)
+
+
+def extract_readcode_accessor():
+    """which accessor do the {code} expansions pass to readCode?  (must be getOrigFile(): the path cppcheck opened)"""
+    src = open(os.path.join(core.REPO, "lib/errorlogger.cpp"), encoding="latin-1").read()
+    calls = re.findall(r"(?<![\w:])readCode\(\s*([^,]+),", src)
+    calls = [c.strip() for c in calls if not c.strip().startswith("const std::string")]      # drop the definition
+    if len(calls) < 1:
+        raise Unrecognised("no readCode call found in errorlogger.cpp")
+    bad = [c for c in calls if not re.match(r"^[\w.()\->]+\.getOrigFile\(\)$", c)]
+    return calls, bad
 
 
 def extract_critical():
@@ -505,18 +516,24 @@ def spec_subst(t, val):
 
 
 def read_code_line(path, line):
-    """the source line as readCode shows it (trailing blanks cut, tabs as blanks); empty when unreadable or line <= 0"""
+    """the source line as readCode shows it: the line-th std::getline result (empty when the file cannot be read, line <= 0 or
+    past the end), trailing blanks / CR cut, tabs as blanks"""
     try:
         data = open(path, "rb").read().split(b"\n")
     except OSError:
         return b""
+    ends_nl = bool(data) and data[-1] == b""
+    if ends_nl:
+        data.pop()
     if line <= 0 or not data:
         return b""
-    if data and data[-1] == b"":
-        data.pop()
-    ln = data[min(line, len(data)) - 1] if data else b""
-    ln = ln.rstrip(b"\r\n\t ") if ln.strip(b"\r\n\t ") else ln
-    return ln.replace(b"\t", b" ")
+    if line > len(data):
+        # std::getline past the end: a file ending in a newline gives "" (the string is erased before the failed extraction);
+        # otherwise eofbit is already set, the sentry fails and the string keeps the last line
+        if ends_nl:
+            return b""
+        line = len(data)
+    return data[line - 1].rstrip(b"\r\n\t ").replace(b"\t", b" ")
 
 
 def spec_render(f, verbose, tf, tl, srcdir=None):
@@ -891,6 +908,106 @@ def check_hang(ctx, res, exe, op, case, findings):
         return True
 
 
+SRC_FILES = {
+    b"a.c": b"int main(void)\n{\n\tint *p = 0;   \n    *p = 1;\t// deref\n  return 0;\r\n}\n",
+    b"dir/b b.h": b"#define X(a) \\\n  ((a) + 1)\n\n\tstruct S { int x; };\nlast line without newline",
+}
+
+
+def code_cases(ctx, res, drv, exe, templates, thorough):
+    """C3c: toString with {code} on findings whose display path differs from the path of the file (as -rp / setfile make it):
+    the files exist only under origFile.  Real code (reads the files) == model (srcOf: line of the ORIGINAL file) == python spec."""
+    rng = ctx.rng
+    root = os.path.join(ctx.tmp, "srcroot").encode()
+    for name, content in SRC_FILES.items():
+        os.makedirs(os.path.dirname(os.path.join(root, name)), exist_ok=True)
+        open(os.path.join(root, name), "wb").write(content)
+    tpls = [(tf, tl) for (tf, tl, o) in templates if b"{code}" in tf or b"{code}" in tl]
+    tpls += [(b"{code}", b"{code}"), (b"{file}:{line}:{column}: {message}\n{code}", b"{file}:{line}: note: {info}\n{code}"), (b"{code}|{code}\r\n", b"")]
+    ops, mops, meta = [], [], []
+    for _ in range(400 if thorough else 60):
+        f = gen_finding(rng, None, "clean")
+        nloc = rng.choice([1, 1, 2, 3])
+        locs = []
+        for _k in range(nloc):
+            name = rng.choice(sorted(SRC_FILES))
+            nlines = SRC_FILES[name].count(b"\n") + 1
+            line = rng.choice([1, 2, 3, 4, 5, nlines, nlines + 3, 0])
+            orig = os.path.join(root, name)
+            disp = rng.choice([name, b"rel/" + name, b"nonexistent-" + name, orig])
+            locs.append((fix_file(disp), orig, line, rng.choice([0, 1, 2, 5, 9]), rng.choice([b"", b"note text"])))
+        f["locs"] = locs
+        tf, tl = rng.choice(tpls)
+        vb = rng.randrange(2)
+        trip = []
+        for (d, o, l, c, i) in locs:
+            t = (o, l, read_code_line(o, l))
+            if t not in trip:
+                trip.append(t)
+        ops.append("str %d %d %s %s %s" % (BRK[0], vb, core.hx(tf), core.hx(tl), finding_wire(f)))
+        mops.append("strc %d %d %s %s %d%s %s" % (BRK[0], vb, core.hx(tf), core.hx(tl), len(trip),
+                                                   "".join(" %s %d %s" % (core.hx(o), l, core.hx(t)) for (o, l, t) in trip), finding_wire(f)))
+        meta.append((f, vb, tf, tl))
+    rc, impl, err = core.run_lines(exe, [], ops, timeout=600)
+    rc, model, err = core.run_lines(drv, [], mops, timeout=600)
+    keep = [k for k in range(len(ops)) if k < len(impl) and impl[k] != "premise"]
+    core.correspond(ctx, res, "C3c:toString-code-field(origFile != display file)", [mops[k] for k in keep], [impl[k] for k in keep], [model[k] for k in keep],
+                    nontrivial=lambda op, out: True)
+    for k in keep:
+        f, vb, tf, tl = meta[k]
+        if impl[k].startswith("throw") or not template_wf(tf) or not template_wf(tl):
+            continue
+        want = spec_render(f, vb, tf, tl, b"/")
+        got = core.unhx(impl[k])
+        if got != want:
+            key = classify_text(f, vb, tf, tl)
+            res.count("code:violation:" + str(key))
+            res.violation("the {code} field does not show the source line of the file the finding points at (display path %r, file %r): got %r expected %r"
+                          % (f["locs"][-1][0], f["locs"][-1][1], got[:300], want[:300]),
+                          dict(kind="code", finding=finding_json(f), verbose=vb, template=tf.hex(), location=tl.hex(), files={k2.hex(): v.hex() for k2, v in SRC_FILES.items()},
+                               output=got.hex(), expected=want.hex()), concrete=True, key=key)
+        else:
+            res.count("code:ok")
+
+
+def rp_code_scenario(ctx, res):
+    """CLI: the binary run from another working directory with -rp=<project>: every {code} line + caret == the real source line / column"""
+    proj = os.path.join(ctx.tmp, "rpproj")
+    work = os.path.join(ctx.tmp, "rpwork")
+    os.makedirs(os.path.join(proj, "src"), exist_ok=True)
+    os.makedirs(work, exist_ok=True)
+    srcp = os.path.join(proj, "src", "np.c")
+    open(srcp, "w").write("void f(void)\n{\n\tint *p = 0;   \n    *p = 1;\n}\n")
+    for name, targs in (("explicit", [b"--template=@@{file}|{line}|{column}|{id}\\n{code}", b"--template-location=@@{file}|{line}|{column}|note\\n{code}"]), ("default", [])):
+        rc, out, err = cli_run(ctx, [b"-q", b"-rp=" + proj.encode()] + targs + [srcp.encode()], work)
+        lines = err.split(b"\n")
+        n = bad = 0
+        detail = b""
+        i = 0
+        while i < len(lines):
+            m = re.match(rb"^@@([^|]+)\|(\d+)\|(\d+)\|", lines[i]) if name == "explicit" else re.match(rb"^([^:]+):(\d+):(\d+): ", lines[i])
+            if not m:
+                i += 1
+                continue
+            f, ln, col = m.group(1), int(m.group(2)), int(m.group(3))
+            code = lines[i + 1] if i + 1 < len(lines) else b"<missing>"
+            caret = lines[i + 2] if i + 2 < len(lines) else b"<missing>"
+            i += 3
+            n += 1
+            want_code = read_code_line(os.path.join(proj.encode(), f), ln)
+            want_caret = b" " * (max(col, 1) - 1) + b"^"
+            if code != want_code or caret != want_caret:
+                bad += 1
+                detail = b"%s:%d:%d shows %r / %r, the source line is %r / %r" % (f, ln, col, code, caret, want_code, want_caret)
+        res.case("cli:rp-code:" + name, True, dict(tie="P_impl:cli", op="cd <other dir>; cppcheck -q -rp=<proj> %s <proj>/src/np.c" % b" ".join(targs).decode(), impl="%d code fields, %d wrong" % (n, bad), model="-"))
+        res.count("cli:rp-code-fields", n)
+        if n < 2:
+            res.oblig("cli:rp-code-scenario-produces-findings", False, "machinery", "the -rp {code} scenario (%s templates) printed %d code fields: %r" % (name, n, err[:300]))
+        if bad:
+            res.violation("cli -rp (%s templates): %d of %d {code} fields do not show the source line the finding points at: %s" % (name, bad, n, detail.decode("latin-1")),
+                          dict(kind="cli-rp-code", templates=name, output=err.hex()), concrete=True, key=None)
+
+
 def corpus_cases():
     p = os.path.join(core.VERIF, "corpus", "C26", "cases.json")
     return json.load(open(p)) if os.path.exists(p) else []
@@ -924,6 +1041,12 @@ def run(ctx, res):
         res.oblig("T5:toString-inconclusive-loop-guarded", bool(info["brk"]), "translation",
                   "" if info["brk"] else "ErrorMessage::toString: the {inconclusive: loop has no `if (pos2 == std::string::npos) break;` guard "
                   "(an unterminated marker at offset 0 makes toString loop forever, F26f)")
+    try:
+        calls, bad = extract_readcode_accessor()
+        res.oblig("T6:code-field-reads-getOrigFile", not bad, "translation",
+                  "" if not bad else "readCode is called with %s (the model reads loc.origFile: `srcOf`)" % bad)
+    except Unrecognised as ex:
+        res.oblig("T6:code-field-reads-getOrigFile", False, "translation", str(ex))
     mark("translate")
     core.prove(ctx, res, MODULES, THEOREMS)
     mark("prove")
@@ -1091,6 +1214,7 @@ def run(ctx, res):
             continue
         check_text_case(res, findings[i], vb, tf, tl, core.unhx(impl[k]), "case %d" % k)
 
+    code_cases(ctx, res, drv, exe, final_tpls, thorough)
     mark("text")
     # ---- C4: SARIF ---------------------------------------------------------------------------------------------------
     groups = []
@@ -1350,6 +1474,7 @@ def cli_tier(ctx, res, thorough):
     for c in cases:
         cli_case(ctx, res, c)
     rp_scenario(ctx, res)
+    rp_code_scenario(ctx, res)
 
 
 def replay_case(ctx, res, drv, exe, rp):
@@ -1390,6 +1515,24 @@ def replay_case(ctx, res, drv, exe, rp):
     raise core.CheckBroken("corpus/replay case of unknown kind %r" % kind)
 
 
+def replay_code(ctx, res, exe, rp):
+    root = os.path.join(ctx.tmp, "srcroot").encode()
+    f = finding_unjson(rp["finding"])
+    # the stored paths point into the temp dir of the original run: re-create the files under the same names
+    for (d, o, l, c, i) in f["locs"]:
+        for name, content in rp["files"].items():
+            if o.endswith(bytes.fromhex(name)):
+                os.makedirs(os.path.dirname(o), exist_ok=True)
+                open(o, "wb").write(bytes.fromhex(content))
+    tf, tl, vb = bytes.fromhex(rp["template"]), bytes.fromhex(rp["location"]), rp["verbose"]
+    rc, impl, err = core.run_lines(exe, [], ["str %d %d %s %s %s" % (BRK[0], vb, core.hx(tf), core.hx(tl), finding_wire(f))])
+    want = spec_render(f, vb, tf, tl, b"/")
+    ok = core.unhx(impl[0]) == want
+    if not ok:
+        res.violation("the {code} field does not show the source line: got %r expected %r" % (core.unhx(impl[0])[:200], want[:200]), rp, concrete=True, key=classify_text(f, vb, tf, tl))
+    return not ok
+
+
 def replay(ctx, res, rp):
     """re-run one stored case on the real code; 1 = still fails"""
     drv = ctx.driver("drv_c26")
@@ -1407,6 +1550,11 @@ def replay(ctx, res, rp):
             t = extract_templates()
             DEFAULT_TPL[0], DEFAULT_TPL[1] = t["default"][0].encode("latin-1"), (t["default"][1] or "").encode("latin-1")
         fails = cli_case(ctx, r2, rp)
+    elif rp.get("kind") == "cli-rp-code":
+        rp_code_scenario(ctx, r2)
+        fails = bool(r2.violations)
+    elif rp.get("kind") == "code":
+        fails = replay_code(ctx, r2, exe, rp)
     elif rp.get("kind") == "cli-rp":
         rp_scenario(ctx, r2)
         fails = bool(r2.violations)
